@@ -139,6 +139,39 @@ fn update_channel_probe(a: &mut Args) -> String {
 	format!("{} {} {}", matches!(res, Ok(Some(_))) as u8, rd(&ch.one_to_two), rd(&ch.two_to_one))
 }
 
+/// node_announcement_probe <node_known 0/1> <has_prev 0/1> <prev_ts> <ts>: real public API on a graph
+/// with one channel between node ids [2;33] and [3;33]; the announcement is for [2;33] (known) or an
+/// unrelated id (unknown). Returns (accepted, stored last_update or 0).
+fn node_announcement_probe(a: &mut Args) -> String {
+	use lightning::ln::msgs::UnsignedNodeAnnouncement;
+	use lightning::routing::gossip::{NetworkGraph, NodeId};
+	use lightning::types::features::{ChannelFeatures, NodeFeatures};
+	use bitcoin::Network;
+	let (known, has_prev, prev_ts, ts) = (a.bool(), a.bool(), a.u32(), a.u32());
+	let g = NetworkGraph::new(Network::Testnet, NoLog);
+	let n1 = NodeId::from_slice(&[2u8; 33]).unwrap();
+	let n2 = NodeId::from_slice(&[3u8; 33]).unwrap();
+	g.add_channel_from_partial_announcement(42, None, 0, ChannelFeatures::empty(), n1, n2).unwrap();
+	let target = if known { n1 } else { NodeId::from_slice(&[4u8; 33]).unwrap() };
+	let mk = |ts: u32| UnsignedNodeAnnouncement {
+		features: NodeFeatures::empty(),
+		timestamp: ts,
+		node_id: target,
+		rgb: [0; 3],
+		alias: lightning::routing::gossip::NodeAlias([0; 32]),
+		addresses: Vec::new(),
+		excess_address_data: Vec::new(),
+		excess_data: Vec::new(),
+	};
+	if has_prev && known {
+		g.update_node_from_unsigned_announcement(&mk(prev_ts)).unwrap();
+	}
+	let r = g.update_node_from_unsigned_announcement(&mk(ts));
+	let ro = g.read_only();
+	let stored = ro.node(&n1).and_then(|n| n.announcement_info.as_ref().map(|i| i.last_update())).unwrap_or(0);
+	format!("{} {}", r.is_ok() as u8, stored)
+}
+
 fn dispatch(name: &str, a: &mut Args) -> String {
 	match name {
 		"check_incoming_htlc_cltv" => {
@@ -303,6 +336,7 @@ fn dispatch(name: &str, a: &mut Args) -> String {
 			}
 		},
 		"update_channel_probe" => update_channel_probe(a),
+		"node_announcement_probe" => node_announcement_probe(a),
 		"secret_store_honest" => {
 			// provide the seed-derived secrets for the top m indices, then read every one back
 			use lightning::ln::chan_utils::{build_commitment_secret, CounterpartyCommitmentSecrets};
